@@ -18,6 +18,7 @@ open EinoV.Gen
 /-- the task-manager facts as regenerated from compose/graph_manager.go -/
 def genFacts : Facts :=
   { waitOneRefills := FactsC03.waitOneRefills
+    refillOnErrorPath := FactsC03.refillOnErrorPath
     doneCap := FactsC03.doneCap
     pushUnderLock := FactsC03.pushUnderLock
     firstTaskInline := FactsC03.firstTaskInline
@@ -25,7 +26,8 @@ def genFacts : Facts :=
 
 /-! ## source-fact tie -/
 
-/-- The regenerated facts are the ones the oracle runs the model with.  The remaining shape
+/-- The regenerated facts (including `refillOnErrorPath`: the re-fill of `waitOne` precedes
+    the early return of a task with an error) are the ones the oracle runs the model with.  The remaining shape
     facts justify the step granularity of the model: `needAll` is `!r.eager`; `wait` is
     `waitAll` / one `waitOne`, `waitAll` loops `waitOne` until it reports false; `waitOne` guards on `num == 0` and decrements once before the
     receive; `submit` increments `num` next to every started execution; `updateChan` is the
@@ -55,7 +57,7 @@ theorem tm_inv_reachable (needAll : Bool) (s : St) (h : Reachable genFacts needA
   refine ⟨hI.count, ?_, hI.conserve⟩
   intro hw hl hch
   have := hI.handoff hw hl
-  have hc : 1 ≤ genFacts.doneCap := facts_good.2.2.2
+  have hc : 1 ≤ genFacts.doneCap := facts_good.2.2.2.1
   simp [hch] at this; omega
 
 /-- **tm_no_lost_wakeup.** Whenever something is outstanding (`num ≠ 0`) and no node body
@@ -103,13 +105,72 @@ theorem tm_waitAll_terminates (needAll : Bool) (s s' : St) (evs : List Ev)
     intro hn
     cases hrun : s'.running with
     | cons t rest =>
-      have := hstuck (.finish t) rfl
+      have := hstuck (.finish t false) rfl
       simp [step, hrun] at this
     | nil =>
       rcases tm_no_lost_wakeup needAll s' hreach' hn hrun with ⟨_, h1⟩ | ⟨_, s1, h1, _, _⟩
       · rw [hstuck .recv rfl] at h1; cases h1
       · rw [hstuck .refill rfl] at h1; cases h1
   exact ⟨hnum, tm_exactly_once needAll s' hreach' hnum⟩
+
+/-! ## collecting an execution that ended with an error, and `waitAll` after an interrupt
+
+  `InterruptAndRerun` and the interrupt of a nested graph are errors after which the run loop
+  goes on collecting (`tm.waitAll()`, compose/graph_run.go:303-311).  In the event language
+  such an execution is `finish t true` (it enters `errs`) and its collection an ordinary
+  `recv`; the theorems above quantify over all event lists, these included.  The two
+  theorems below spell the consequence out for the erroring receive itself. -/
+
+/-- **tm_err_collect_refills.** In every reachable state, a receive — whether the execution
+    handed out ended with an error (`t ∈ errs`: node error, `InterruptAndRerun`, sub-graph
+    interrupt) or not — leaves the collector inside its re-fill window; the re-fill is then
+    enabled, and after it nothing waits in the list while the channel is empty. -/
+theorem tm_err_collect_refills (needAll : Bool) (s s1 : St) (h : Reachable genFacts needAll s)
+    (hrecv : step genFacts needAll s .recv = some s1) :
+    s1.coll = .window ∧
+    ∃ s2, step genFacts needAll s1 .refill = some s2 ∧ s2.coll = .idle ∧ (s2.l ≠ [] → s2.ch ≠ []) := by
+  have hw := (recv_opens_window facts_good needAll hrecv).1
+  have hI1 := reachable_inv facts_good (reachable_run h (run_one hrecv))
+  exact ⟨hw, refill_after_recv facts_good needAll hI1 hw⟩
+
+/-- **tm_waitAll_after_interrupt.** For every schedule reaching `s`, if the collector then
+    receives an execution `t` that ended with an error (`t ∈ s.errs`; the run loop continues
+    with `waitAll`), then for every continuation `evs` without a further `submit`:
+    the continuation has at most `measure s1` steps; in the state it reaches the collector
+    is not stuck while something is outstanding and no body runs (no lost wake-up after the
+    interrupt); and once no step is possible the counter is zero and everything submitted —
+    `t` included, exactly as often as it was submitted — has been collected. -/
+theorem tm_waitAll_after_interrupt (needAll : Bool) (s s1 s' : St) (t : Task) (evs : List Ev)
+    (h : Reachable genFacts needAll s)
+    (hrecv : step genFacts needAll s .recv = some s1)
+    (_hlast : s1.got = s.got ++ [t]) (_herr : t ∈ s.errs)
+    (hns : ∀ e ∈ evs, e.isSubmit = false) (hr : run genFacts needAll s1 evs = some s') :
+    evs.length + measure s' ≤ measure s1 ∧
+    (s'.num ≠ 0 → s'.running = [] →
+      (s'.coll = .idle ∧ (step genFacts needAll s' .recv).isSome = true) ∨
+      (s'.coll = .window ∧ ∃ s2, step genFacts needAll s' .refill = some s2 ∧ s2.coll = .idle ∧
+          (step genFacts needAll s2 .recv).isSome = true)) ∧
+    ((∀ e, e.isSubmit = false → step genFacts needAll s' e = none) →
+      s'.num = 0 ∧ s'.got.Perm s'.submitted ∧ s'.got.count t = s'.submitted.count t) := by
+  have h1 : Reachable genFacts needAll s1 := reachable_run h (run_one hrecv)
+  have hT := tm_waitAll_terminates needAll s1 s' evs h1 hns hr
+  refine ⟨hT.1, fun hn hrun => tm_no_lost_wakeup needAll s' (reachable_run h1 hr) hn hrun, ?_⟩
+  intro hstuck
+  have := hT.2 hstuck
+  exact ⟨this.1, this.2, this.2.count_eq t⟩
+
+/-- non-vacuity of `tm_waitAll_after_interrupt` (batch mode, first task inline and last to
+    finish, the rerun execution 2 received while 3 and 1 wait in the list): the hypotheses are
+    satisfiable and the continuation `refill, recv, refill, recv, refill` collects everything -/
+example :
+    ∃ s s1, Reachable genFacts true s ∧ step genFacts true s .recv = some s1 ∧
+      s1.got = s.got ++ [2] ∧ 2 ∈ s.errs ∧ s1.l = [3, 1] ∧ s1.ch = [] ∧
+      ∃ s', run genFacts true s1 [.refill, .recv, .refill, .recv, .refill] = some s' ∧
+        s'.num = 0 ∧ s'.got = [2, 3, 1] :=
+  ⟨⟨[], [3, 1], [2], 3, .idle, [], [1, 2, 3], [2]⟩, ⟨[], [3, 1], [], 2, .window, [2], [1, 2, 3], [2]⟩,
+   ⟨[.submit [1, 2, 3], .finish 2 true, .finish 3 false, .finish 1 false], by decide⟩,
+   by decide, rfl, by decide, rfl, rfl,
+   ⟨[], [], [], 0, .idle, [2, 3, 1], [1, 2, 3], [2]⟩, by decide, rfl, rfl⟩
 
 /-! ## resolution of a batch of completed tasks is order independent -/
 
@@ -214,20 +275,20 @@ example : let g : GCase := { nodes := [⟨"a1", ["start"]⟩, ⟨"a2", ["start"]
 /-- a non-trivial reachable state (batch mode: first task inline, two goroutines, one
     completion parked in the list behind a full channel, collector inside its window) -/
 example : run genFacts true St.init
-      [.submit [1, 2, 3], .finish 2, .finish 3, .finish 1, .recv, .refill]
-    = some ⟨[], [1], [3], 2, .idle, [2], [1, 2, 3]⟩ := by decide
+      [.submit [1, 2, 3], .finish 2 false, .finish 3 false, .finish 1 false, .recv, .refill]
+    = some ⟨[], [1], [3], 2, .idle, [2], [1, 2, 3], []⟩ := by decide
 
-example : Reachable genFacts true ⟨[], [3, 1], [], 2, .window, [2], [1, 2, 3]⟩ :=
-  ⟨[.submit [1, 2, 3], .finish 2, .finish 3, .finish 1, .recv], by decide⟩
+example : Reachable genFacts true ⟨[], [3, 1], [], 2, .window, [2], [1, 2, 3], []⟩ :=
+  ⟨[.submit [1, 2, 3], .finish 2 false, .finish 3 false, .finish 1 false, .recv], by decide⟩
 
 /-- the hypotheses of `tm_no_lost_wakeup` / `tm_exactly_once` are satisfiable -/
 example : ∃ s, Reachable genFacts false s ∧ s.num ≠ 0 ∧ s.running = [] ∧ s.l ≠ [] :=
-  ⟨⟨[], [2], [1], 2, .idle, [], [1, 2]⟩, ⟨[.submit [1, 2], .finish 1, .finish 2], by decide⟩,
+  ⟨⟨[], [2], [1], 2, .idle, [], [1, 2], []⟩, ⟨[.submit [1, 2], .finish 1 false, .finish 2 false], by decide⟩,
    by decide, rfl, by decide⟩
 
 example : ∃ s, Reachable genFacts true s ∧ s.num = 0 ∧ s.got = [2, 1] ∧ s.submitted = [1, 2] :=
-  ⟨⟨[], [], [], 0, .idle, [2, 1], [1, 2]⟩,
-   ⟨[.submit [1, 2], .finish 2, .finish 1, .recv, .refill, .recv, .refill], by decide⟩,
+  ⟨⟨[], [], [], 0, .idle, [2, 1], [1, 2], []⟩,
+   ⟨[.submit [1, 2], .finish 2 false, .finish 1 false, .recv, .refill, .recv, .refill], by decide⟩,
    rfl, rfl, rfl⟩
 
 /-- `resolve_perm` on a concrete batch with a branch and a shared successor -/
@@ -244,15 +305,54 @@ example :
     not — the collector blocks forever with `num = 1` and nothing running (lost wake-up). -/
 theorem lost_wakeup_without_refill :
     ∃ s, run { Expected.C03.facts with waitOneRefills := false } false St.init
-          [.submit [1, 2], .finish 1, .finish 2, .recv] = some s ∧
+          [.submit [1, 2], .finish 1 false, .finish 2 false, .recv] = some s ∧
       s.num = 1 ∧ s.running = [] ∧ s.l = [2] ∧ s.ch = [] ∧
       (∀ e, e.isSubmit = false →
         step { Expected.C03.facts with waitOneRefills := false } false s e = none) := by
-  refine ⟨⟨[], [2], [], 1, .idle, [1], [1, 2]⟩, by decide, rfl, rfl, rfl, rfl, ?_⟩
+  refine ⟨⟨[], [2], [], 1, .idle, [1], [1, 2], []⟩, by decide, rfl, rfl, rfl, rfl, ?_⟩
   intro e he
   cases e with
   | submit ts => cases he
-  | finish t => simp [step]
+  | finish t err => simp [step]
+  | recv => decide
+  | refill => decide
+
+/-- The early return `if ta.err != nil { return ta, true }` *before* the re-fill
+    (`refillOnErrorPath = false`), batch mode: three executions, the first one inlined and the
+    last to finish; execution 2 answers `InterruptAndRerun`.  When the run loop starts
+    collecting, 2 sits in the channel and 3, 1 in the list; 2 is received, the re-fill is
+    skipped, and `waitAll` blocks forever on the empty channel with `num = 2` and nothing
+    running.  With the facts of the unchanged tree the same schedule goes on (example above). -/
+theorem lost_wakeup_after_interrupt_batch :
+    ∃ s, run { Expected.C03.facts with refillOnErrorPath := false } true St.init
+          [.submit [1, 2, 3], .finish 2 true, .finish 3 false, .finish 1 false, .recv] = some s ∧
+      s.got = [2] ∧ s.num = 2 ∧ s.running = [] ∧ s.l = [3, 1] ∧ s.ch = [] ∧
+      (∀ e, e.isSubmit = false →
+        step { Expected.C03.facts with refillOnErrorPath := false } true s e = none) := by
+  refine ⟨⟨[], [3, 1], [], 2, .idle, [2], [1, 2, 3], [2]⟩, by decide, rfl, rfl, rfl, rfl, rfl, ?_⟩
+  intro e he
+  cases e with
+  | submit ts => cases he
+  | finish t err => simp [step]
+  | recv => decide
+  | refill => decide
+
+/-- The same fact, eager mode (Workflow): execution 1 is received first and its state
+    post-handler keeps the run loop inside `waitOne` (the window) while 2 (`InterruptAndRerun`)
+    and then 3 finish; the late re-fill finds the channel full; 2 is received without re-fill;
+    `waitAll` blocks forever with 3 in the list. -/
+theorem lost_wakeup_after_interrupt_eager :
+    ∃ s, run { Expected.C03.facts with refillOnErrorPath := false } false St.init
+          [.submit [1, 2, 3], .finish 1 false, .recv, .finish 2 true, .finish 3 false, .refill, .recv]
+          = some s ∧
+      s.got = [1, 2] ∧ s.num = 1 ∧ s.running = [] ∧ s.l = [3] ∧ s.ch = [] ∧
+      (∀ e, e.isSubmit = false →
+        step { Expected.C03.facts with refillOnErrorPath := false } false s e = none) := by
+  refine ⟨⟨[], [3], [], 1, .idle, [1, 2], [1, 2, 3], [2]⟩, by decide, rfl, rfl, rfl, rfl, rfl, ?_⟩
+  intro e he
+  cases e with
+  | submit ts => cases he
+  | finish t err => simp [step]
   | recv => decide
   | refill => decide
 
@@ -260,27 +360,27 @@ theorem lost_wakeup_without_refill :
     (`pushUnderLock = false`): a single completion never reaches the channel. -/
 theorem lost_wakeup_without_ordered_push :
     ∃ s, run { Expected.C03.facts with pushUnderLock := false } false St.init
-          [.submit [1, 2], .finish 1] = some s ∧
+          [.submit [1, 2], .finish 1 false] = some s ∧
       s.l = [1] ∧ s.ch = [] ∧
       step { Expected.C03.facts with pushUnderLock := false } false s .recv = none := by
-  exact ⟨⟨[2], [1], [], 2, .idle, [], [1, 2]⟩, by decide, rfl, rfl, by decide⟩
+  exact ⟨⟨[2], [1], [], 2, .idle, [], [1, 2], []⟩, by decide, rfl, rfl, by decide⟩
 
 /-- The inlined task also spawned (`inlineRemovesFirst = false`): one submitted execution is
     collected twice. -/
 theorem duplicate_when_inline_not_removed :
     ∃ s, run { Expected.C03.facts with inlineRemovesFirst := false } true St.init
-          [.submit [1], .finish 1, .finish 1, .recv, .refill, .recv, .refill] = some s ∧
+          [.submit [1], .finish 1 false, .finish 1 false, .recv, .refill, .recv, .refill] = some s ∧
       s.num = 0 ∧ s.got = [1, 1] ∧ s.submitted = [1] := by
-  exact ⟨⟨[], [], [], 0, .idle, [1, 1], [1]⟩, by decide, rfl, rfl, rfl⟩
+  exact ⟨⟨[], [], [], 0, .idle, [1, 1], [1], []⟩, by decide, rfl, rfl, rfl⟩
 
 /-- An unbuffered `done` with the non-blocking send of `updateChan` (`doneCap = 0`):
     nothing is ever handed off. -/
 theorem deadlock_with_unbuffered_done :
     ∃ s, run { Expected.C03.facts with doneCap := 0 } false St.init
-          [.submit [1, 2], .finish 1, .finish 2] = some s ∧
+          [.submit [1, 2], .finish 1 false, .finish 2 false] = some s ∧
       s.num = 2 ∧ s.running = [] ∧ s.ch = [] ∧
       step { Expected.C03.facts with doneCap := 0 } false s .recv = none := by
-  exact ⟨⟨[], [1, 2], [], 2, .idle, [], [1, 2]⟩, by decide, rfl, rfl, rfl, by decide⟩
+  exact ⟨⟨[], [1, 2], [], 2, .idle, [], [1, 2], []⟩, by decide, rfl, rfl, rfl, by decide⟩
 
 /-- Without distinct node keys in a batch the cell value would depend on the order (the
     hypothesis of `resolve_perm` is needed; a superstep never runs a node twice). -/
